@@ -29,13 +29,13 @@ ASSUMPTIONS = [
     ">= max(1e-5, 1e-5*diameter) away",
     "'always returns' is judged only for operand pairs classified transversal-only before the run (exact for polygons; for "
     "curved pairs: flattened curves cross at angles >= 8 degrees, >= 1e-4*L from junctions, and stay >= 2e-3*L apart elsewhere); "
-    "a logical budget of 2e7 shapepy function entries (polygonal operands; curved operands are bounded by the watchdog, which yields inconclusive) stands for 'hangs', and a Fraction parameter above 1e5 bits for "
+    "a logical budget of 3e8 shapepy function entries (polygonal operands, 15x the largest legitimate operator observed; curved operands are bounded by the watchdog, which yields inconclusive) stands for 'hangs', and a Fraction parameter above 1e5 bits for "
     "'does not return in practice'",
 ]
 DECIDING_MONITORS = ("membership:judged",)
-CASE_TIMEOUT = 300
+CASE_TIMEOUT = 900
 SHARD_SIZE = 6
-STEP_BUDGET = 20_000_000          # polygons: the largest legitimate case observed needs < 2e6
+STEP_BUDGET = 300_000_000         # polygons: the largest legitimate operator observed needs 1.9e7 (evidence: max_logical_steps_*)
 STEP_BUDGET_CURVED = 2_000_000_000  # curved: one operator legitimately needs up to 1e8 entries; the watchdog acts first
 
 
@@ -297,3 +297,14 @@ def program_case(ctx):
                 case.violate("program %s changed its leaf L%d: %s" % (text, i, why), program=text)
     case.nontrivial = total >= 10 and any(c != "apart" for _, c in nodes)
     return case.finish()
+
+
+def extra_coverage(records):
+    """largest number of logical steps (shapepy function entries) one operator / program needed,
+    per stratum family: the headroom of the polygon budget is read from here"""
+    poly = [r.get("steps", 0) for r in records if "curved" not in (r.get("stratum") or "") and not (r.get("stratum") or "").startswith("program")]
+    prog = [r.get("steps", 0) for r in records if (r.get("stratum") or "").startswith("program") and "curved" not in r.get("stratum")]
+    curved = [r.get("steps", 0) for r in records if "curved" in (r.get("stratum") or "")]
+    return {"max_logical_steps_polygon_pairs": max(poly or [0]), "max_logical_steps_polygon_programs": max(prog or [0]),
+            "max_logical_steps_curved": max(curved or [0]), "step_budget_polygon_pairs": STEP_BUDGET,
+            "step_budget_polygon_programs": 4 * STEP_BUDGET, "step_budget_curved": STEP_BUDGET_CURVED}
